@@ -28,6 +28,29 @@ CHECKS = {
         design_ref="DESIGN.md §5 C16",
         note="Trusted: TLC, the dumb serialiser of query results. Assumes a name is not shared between function/variable/class in one namespace.",
     ),
+    "C06": dict(
+        category="model_checking",
+        technique="declarative subtyping relation in TLA+ (HTypes: containment + capture approximation); TLC enumerates a family of class "
+                  "tables with term universes; real is_subtype/is_assignable matrices validated pair by pair by TLC (HSubTrace)",
+        text="Every well-formed table of the A/B/Cc/D family (all variance/bound/super-argument combinations) x universe of terms to nesting 2 x "
+             "4 languages: the implementation's full subtype matrix is compared with the declarative relation - soundness everywhere, exactness, "
+             "reflexivity, transitivity on the fragment, bottom below all; the spec's own relation is checked transitive on every table. "
+             "Exhaustive within the family in the thorough tier; quick samples 96 table/language cases.",
+        design_ref="DESIGN.md §5 C06",
+        note="Trusted: TLC, term<->object conversion (round-trip checked). Known finding F11 (supertypes by textual substitution) is keyed by the "
+             "spec predicate TextualDiffers; everything outside that shape is reported.",
+    ),
+    "C07": dict(
+        category="model_checking",
+        technique="TLA+ model of shared type objects under operation histories (HTypeHeap); TLC-enumerated histories executed on shared real "
+                  "declarations; per-step trace validation of result, transitive supertypes and immutability frame (HTypeHeapTrace)",
+        text="All length-2 (thorough: length-3) histories of new / self-type / re-instantiation through an earlier result's constructor / "
+             "substitute / to_variance_free / to_type_variable_free / is_subtype over two three-level generic hierarchies, plus random longer "
+             "ones; after each step TLC checks result = textual substitution, supertypes = declared supertypes substituted transitively, "
+             "substitution laws, and that no definition, argument or earlier result changed.",
+        design_ref="DESIGN.md §5 C07",
+        note="Trusted: TLC, structural snapshot function. Supertypes compared for variable-free instantiations only.",
+    ),
 }
 
 NOT_YET = "check not built yet (work in progress in this session; see DESIGN.md §10 for the order of work)"
